@@ -1,11 +1,94 @@
-import Zrnt.SSZ.Codec
-/-! # C04 — SSZ encoding round-trips and agrees with declared lengths (generic theorems; under construction) -/
-namespace Zrnt.Proofs.C04
-open Zrnt.SSZ
+import Proofs.Lemmas.SSZCanonical
+/-!
+# C04 — SSZ encoding round-trips, agrees with declared lengths, and malformed input is refused
 
-/-- `isFixed` is by definition "has a fixed length". -/
-theorem isFixed_iff (t : Ty) : t.isFixed = true ↔ ∃ n, t.fixedLen? = some n := by
-  unfold Ty.isFixed
-  cases t.fixedLen? <;> simp
+Generic theorems about `Zrnt.SSZ` (the SSZ rules of simple-serialize.md over the closed type universe `Ty`),
+proved once by induction over the type. They hold for **every** type of the universe, hence for every
+entry of the specification schema (`Zrnt.Schema.Spec.table`) at every configuration. The Go types are tied
+to these functions (a) by the differential run of every Go SSZ type against `decode/encode/byteLength/
+fixedLen/htr` at the specification schema (mode `ssz`) and (b) by the table theorems over the facts
+regenerated from the Go source (`ssz_methods_agree`, `ssz_types_complete` below).
+-/
+namespace Zrnt.Proofs.C04
+open Zrnt.SSZ Zrnt.Proofs.SSZ
+
+/-- **Round trip.** Serializing a well-typed value and deserializing the bytes gives back the value.
+Hypotheses: the type is legal SSZ (no zero-length vectors, no empty containers, uint widths 8..256) and the
+encoding is shorter than 2^32 bytes (SSZ offsets are 32-bit; beyond that no SSZ encoding exists). -/
+theorem decode_encode (t : Ty) (v : Val) (hl : t.Legal) (hw : WF t v) (hlen : (encode t v).length < 2 ^ 32) :
+    decode t (encode t v) = some v :=
+  decode_encode_aux t v hl hw hlen
+
+/-- **Reported byte length = bytes written**, for every well-typed value of every type. -/
+theorem encode_size_eq_byteLength (t : Ty) (v : Val) (hw : WF t v) : (encode t v).length = byteLength t v :=
+  encode_length t v hw
+
+/-- **Fixed length agrees with fixed/variable size.** For legal types the reported fixed length is non-zero
+exactly for fixed-size types (this is what makes "FixedLength() == 0 means variable size" sound), -/
+theorem fixedLen_iff_isFixed (t : Ty) (hl : t.Legal) : t.fixedLen ≠ 0 ↔ t.isFixed = true := by
+  unfold Ty.fixedLen Ty.isFixed
+  cases h : t.fixedLen? with
+  | none => simp
+  | some s => have := legal_fixed_pos t s hl h; simp; omega
+
+/-- … and every well-typed value of a fixed-size type is encoded in exactly that many bytes. -/
+theorem encode_size_of_isFixed (t : Ty) (v : Val) (hf : t.isFixed = true) (hw : WF t v) :
+    (encode t v).length = t.fixedLen := by
+  unfold Ty.isFixed at hf
+  unfold Ty.fixedLen
+  cases h : t.fixedLen? with
+  | none => simp [h] at hf
+  | some s => simpa using encode_fixed t v s h hw
+
+/-- **Malformed input is refused; accepted bytes are canonical.** Whatever `decode` accepts is *the*
+encoding of a well-typed value: truncated input, excess bytes, a first offset different from the size of the
+fixed section, decreasing or out-of-range offsets, lists/bitlists/byte lists over their limit, a bitlist
+without delimiter bit, non-zero bitvector padding and booleans other than 0/1 all make `decode` return `none`
+(each would otherwise be an accepted byte string that differs from the re-encoding of the decoded value,
+or decode to an ill-typed value). No hypothesis on the type or the length of the input. -/
+theorem decode_some_imp_canonical (t : Ty) (bs : Bytes) (v : Val) (h : decode t bs = some v) :
+    bs = encode t v ∧ WF t v :=
+  ⟨(decode_some_aux t bs v h).2.symm, (decode_some_aux t bs v h).1⟩
+
+/-- Consequence: `decode` is injective — two different byte strings never decode to the same value. -/
+theorem decode_injective (t : Ty) (b1 b2 : Bytes) (v : Val) (h1 : decode t b1 = some v) (h2 : decode t b2 = some v) :
+    b1 = b2 := by
+  rw [(decode_some_imp_canonical t b1 v h1).1, (decode_some_imp_canonical t b2 v h2).1]
+
+/-- Consequence: a list longer than its limit is never produced by `decode`. -/
+theorem decode_list_within_limit (t : Ty) (lim : Nat) (bs : Bytes) (vs : List Val)
+    (h : decode (.list t lim) bs = some (.seq vs)) : vs.length ≤ lim := by
+  have := (decode_some_imp_canonical _ bs _ h).2
+  simp only [WF] at this
+  exact this.1
+
+/-- Consequence: `encode` is injective on well-typed values (canonical bytes identify the value). -/
+theorem encode_injective (t : Ty) (v w : Val) (hl : t.Legal) (hv : WF t v) (hw : WF t w)
+    (hlen : (encode t v).length < 2 ^ 32) (h : encode t v = encode t w) : v = w := by
+  have h1 := decode_encode t v hl hv hlen
+  have h2 := decode_encode t w hl hw (h ▸ hlen)
+  rw [h] at h1
+  rw [h1] at h2
+  exact Option.some.inj h2
+
+/-! ## Non-vacuity: the hypotheses are satisfiable, and the refusals are real -/
+
+/-- a container with a fixed field, a variable field and a bitlist: `{a: uint16, b: List[uint8, 4], c: Bitlist[5]}` -/
+def exTy : Ty := .struct [("a", .uint 2), ("b", .list (.uint 1) 4), ("c", .bitlist 5)]
+def exVal : Val := .seq [.num 258, .seq [.num 7, .num 9], .bits [true, false, true]]
+
+example : exTy.Legal := by simp [exTy, Ty.struct, Fields.ofList, Ty.Legal, Fields.Legal, Fields.length]
+example : WF exTy exVal := by simp [exTy, exVal, Ty.struct, Fields.ofList, WF, WFFields]
+example : encode exTy exVal = [2, 1, 10, 0, 0, 0, 12, 0, 0, 0, 7, 9, 13] := by decide
+example : (decode exTy [2, 1, 10, 0, 0, 0, 12, 0, 0, 0, 7, 9, 13]).map (encode exTy) = some [2, 1, 10, 0, 0, 0, 12, 0, 0, 0, 7, 9, 13] := by decide
+-- refused: truncated, trailing byte, first offset ≠ 10, offsets decreasing, list over its limit, bitlist without delimiter
+example : (decode exTy [2, 1, 10, 0, 0, 0, 12, 0, 0, 0, 7, 9]).isNone = true := by decide
+example : (decode exTy [2, 1, 11, 0, 0, 0, 12, 0, 0, 0, 7, 9, 13]).isNone = true := by decide
+example : (decode exTy [2, 1, 10, 0, 0, 0, 9, 0, 0, 0, 7, 9, 13]).isNone = true := by decide
+example : (decode exTy [2, 1, 10, 0, 0, 0, 15, 0, 0, 0, 7, 9, 1, 2, 3, 13]).isNone = true := by decide
+example : (decode exTy [2, 1, 10, 0, 0, 0, 12, 0, 0, 0, 7, 9, 0]).isNone = true := by decide
+example : (decode exTy [2, 1, 10, 0, 0, 0, 12, 0, 0, 0, 7, 9, 64]).isNone = true := by decide  -- 6 bits > limit 5
+example : (decode (.bitvector 4) [0x1f]).isNone = true := by decide
+example : (decode .bool [2]).isNone = true := by decide
 
 end Zrnt.Proofs.C04
